@@ -185,7 +185,7 @@ fn token_inner<'a>(t: &mut Tape<'_>, level: &mut &'a CmdSpec, out: &mut Argv) {
         // unknown flags
         5 => out.push(s(t.pick_s(&["--nope", "--alph", "-Z", "-zzz", "--=", "--=v", "-=", "---", "--alpha=", "-\u{e9}"]))),
         // negative numbers and look-alikes
-        6 => out.push(s(t.pick_s(&["-1", "-1.5", "-1e3", "-.5", "-1x", "--1", "-0", "-9223372036854775809"]))),
+        6 => out.push(s(t.pick_s(&["-1", "-1.5", "-1e3", "-.5", "-1x", "--1", "-0", "-9223372036854775809", "-1e-", "-1e+5", "-2.5E-", "-1e", "-1.", "-1.e3", "-e1", "-1e3e"]))),
         // raw bytes
         7 => {
             let n = t.range(0, 6);
